@@ -317,6 +317,7 @@ pub fn run(args: &Args) {
                 }
             }
             out.count("injections");
+            out.count("evaluations");
             if fired {
                 out.count("injections_fired");
             }
